@@ -30,7 +30,7 @@ def gen_history(rng, weights):
         elif r < weights["update"] + weights["nochange"]:
             ops.append(("nochange", ts))
         elif r < weights["update"] + weights["nochange"] + weights["failed"]:
-            ops.append(("failed", rng.choice(["error", "malformed"])))
+            ops.append(("failed", rng.choice(["error", "malformed", "bad-update"])))
         elif r < weights["update"] + weights["nochange"] + weights["failed"] + weights["register"]:
             if rng.random() < 0.15:
                 ops.append(("register-refused",))                              # arguments the agent cannot interpret
@@ -67,7 +67,14 @@ def drive(ctx, ops, cid):
                     fails.append(("nochange-altered", "a 'no change' answer altered the state: %r -> %r" % (before[:2], after[:2])))
             elif k == "failed":
                 before = (w.installed(), w.svc.current_hash, len(w.tasks.pending))
-                answer = RuntimeError("unavailable") if op[1] == "error" else object()
+                if op[1] == "bad-update":
+                    # a well-formed UPDATE carrying a NEW hash and a tracepoint that cannot be converted
+                    from deepproto.proto.poll.v1.poll_pb2 import PollResponse, ResponseType
+                    from deepproto.proto.tracepoint.v1.tracepoint_pb2 import TracePointConfig, Metric
+                    answer = PollResponse(ts_nanos=5, current_hash="777", response_type=ResponseType.UPDATE,
+                                          response=[TracePointConfig(ID="9", path="polled.py", line_number=9, metrics=[Metric(name="m", type=99)])])
+                else:
+                    answer = RuntimeError("unavailable") if op[1] == "error" else object()
                 err = w.do_poll(answer)
                 if err is None:
                     fails.append(("failed-poll-accepted", "an unintelligible poll answer was accepted"))
